@@ -37,6 +37,17 @@ def gen_cases(rng, tier):
         mode = rng.choice(['lazy', 'lazy', 'mixed'])
         cases.append(dict(members=members, eof=eof, rd=rng.choice([2, 2, 3, 4]), ops=ops, gate=True,
                           budget=[0 if mode == 'lazy' else rng.choice([0, 0, 1, 3]) for _ in ops]))
+    # the same statement with a block cache attached (rd = 1): SetCache is part of the Reader's API and the
+    # positions, bytes and LastChunk values of C02 do not depend on it (transparency itself is C03's claim);
+    # histories with Seek-without-read, re-visits through Seek and through sequential reading
+    import c03
+    for k in range(24 if tier == 'quick' else 400):
+        kind = c03.KINDS[k % len(c03.KINDS)]
+        if k % 3 == 2:
+            cases.append(c03.targeted(rng, kind))
+            continue
+        members, eof = rdflat.gen_file(rng, nmax=6, big=0.02)
+        cases.append(dict(members=members, eof=eof, rd=1, ops=c03.gen_history_cached(rng, members, eof, nops, kind, 4)))
     # one member of every boundary size, read through in one go and byte-wise at the end
     for ln in rdflat.BIG + [0, 1, 2]:
         members = [[3, 5], [ln, 11], [2, 7]]
@@ -85,13 +96,19 @@ def run(res, rng, tier):
                 res.corr_bad.append(dict(case=c, obs=rdflat.clean(o)))
             continue
         terms.append((c, o, rdflat.coq_case(c, o)))
-    bad, err = core.coq_mismatches(HEADER, 'rcase', 'c02_agree', [t[2] for t in terms], 'c02', shard=40)
-    if err:
-        res.corr_bad.append(dict(error=err))
-    for i in bad:
-        c, o, t = terms[i]
-        res.corr_bad.append(dict(case=c, obs=rdflat.clean(o), note='Model/Reader.v (v_run / r_run) and the implementation disagree on this history'))
-    res.extra['traces_validated_against_impl'] = len(terms) - len(bad)
+    cached = [t for t in terms if any(op[0] == 'setcache' for op in t[0]['ops'])]
+    plain = [t for t in terms if not any(op[0] == 'setcache' for op in t[0]['ops'])]
+    nbad = 0
+    for batch, fn, tag in ((plain, 'c02_agree', 'c02'), (cached, 'c03_agree', 'c02c')):
+        bad, err = core.coq_mismatches(HEADER, 'rcase', fn, [t[2] for t in batch], tag, shard=40)
+        if err:
+            res.corr_bad.append(dict(error=err))
+        for i in bad:
+            c, o, t = batch[i]
+            res.corr_bad.append(dict(case=c, obs=rdflat.clean(o), note='Model/Reader.v (v_run / r_run; with caches: the store model of C03) and the implementation disagree on this history'))
+        nbad += len(bad)
+    res.count('with-cache(rd=1)', len(cached))
+    res.extra['traces_validated_against_impl'] = len(terms) - nbad
     res.rule = ('files of 1..6 (thorough: 10) members from the independent member builder, payload sizes biased to 0,1,2,3, <40, ~1000 and '
                 '65279/65280/65281/65535/65536, with and without EOF marker; histories of up to 40 (thorough: 400) calls over '
                 'Seek(block, offset in {0, len, 1, len-1, random}), Seek(LastChunk.Begin), Read(n in {0,1,2,len-1,len,len+1,random,>total}), '
